@@ -11,6 +11,7 @@ oracle:         the destination snapshot is compared with the source trees by `p
                 bytes; permission bits and modification times with -p), independent of both models
 """
 import os
+import re
 import shutil
 import subprocess
 import time
@@ -19,7 +20,7 @@ from vlib import pcp
 from vlib.common import HARNESS
 from vlib.pcp import Ent, OLD, hx
 from vlib.seqrun import run_batch
-from checks.c12 import SAN_FLAGS, read_const, probe_variant
+from checks.c12 import SAN_FLAGS, read_const, probe_variant, variant_text
 
 LEVEL = "proof"
 PROPS = "PdshVerif.Props.C11"
@@ -106,11 +107,16 @@ def reorder(base, node):
             reorder(p, k)
 
 
+def usec(node):
+    """modification time in microseconds, the unit of the models' trees (resolution of the T record)"""
+    return node.mtime * 10**6 + node.nsec // 1000
+
+
 def tokens(node, name=None):
     nm = hx(node.name if name is None else name)
     if node.kind == "f":
-        return ["F", nm, "%o" % node.mode, "%d" % node.mtime, "%d" % node.atime, "g%d.%d" % node.gen]
-    out = ["D", nm, "%o" % node.mode, "%d" % node.mtime, "%d" % node.atime]
+        return ["F", nm, "%o" % node.mode, "%d" % usec(node), "%d" % (node.atime * 10**6), "g%d.%d" % node.gen]
+    out = ["D", nm, "%o" % node.mode, "%d" % usec(node), "%d" % (node.atime * 10**6)]
     for k in node.kids:
         out += tokens(k)
     return out + [")"]
@@ -166,7 +172,7 @@ def gen_case(rng, k, quick):
         srcs.append((userdir, t))
     c = dict(k=k, srcs=srcs, p=p, reverse=reverse, host=rng.choice(HOSTS), um=rng.choice([0o22, 0o22, 0o77, 0, 0o27]),
              dest=b"dest", conflict=None, overwrite=None,
-             destmode=rng.choice([0o755, 0o755, 0o755, 0o700, 0o2775]), subsec=False)
+             destmode=rng.choice([0o755, 0o755, 0o755, 0o700, 0o2775]), subsec=False, fsz=0)
     if nsrc == 1 and srcs[0][1].kind == "f" and not reverse and rng.random() < 0.3:
         c["dest"] = b"dest/new name"                       # single file copied to a (new) file name
     elif rng.random() < 0.15:
@@ -186,6 +192,10 @@ def gen_case(rng, k, quick):
         files = [(path, n) for _, t in srcs for path, n in walk(t, []) if n.kind == "f"]
         if files:
             c["overwrite"] = rng.choice(files)[0]
+    elif c["dest"] == b"dest" and rng.random() < 0.10:
+        # "a file that cannot be written is reported without corrupting any other file": the receiver runs under a
+        # file size limit, so files beyond it fail in the middle of their data
+        c["fsz"] = rng.choice([8192, 16384, 20000, 100])
     return c
 
 
@@ -193,9 +203,9 @@ def dest_name(c, userdir, node):
     return node.name + (b"." + c["host"] if c["reverse"] else b"")
 
 
-def run_cases(ctx, exe, cases, cnt, repaired, cov, dist, distinct):
-    sbase = os.path.join(ctx.scratch, "src")
-    jbase = os.path.join(ctx.scratch, "jails")
+def run_cases(ctx, exe, cases, cnt, var, cov, dist, distinct, nested=False):
+    sbase = os.path.join(ctx.scratch, "src_shrink" if nested else "src")
+    jbase = os.path.join(ctx.scratch, "jails_shrink" if nested else "jails")
     for d in (sbase, jbase):
         shutil.rmtree(d, ignore_errors=True)
         os.makedirs(d)
@@ -245,21 +255,25 @@ def run_cases(ctx, exe, cases, cnt, repaired, cov, dist, distinct):
         nent = sum(count_entries(t) for _, t in c["srcs"])
         c["y"] = 0 if c["reverse"] else int(nent > 1)
         c["nent"] = nent
-        ops.append(["rt %s /%s %s %d %d %o %s %d %s %s" % (j, CWD.decode(), hx(c["dest"]), c["p"], c["y"], c["um"],
-                                                        os.fsdecode(sdir), int(c["reverse"]), hx(c["host"]),
-                                                        " ".join(hx(u) for u in users))])
+        ops.append(["rt %s /%s %s %d %d %o %d %s %d %s %s" % (j, CWD.decode(), hx(c["dest"]), c["p"], c["y"], c["um"],
+                                                           c.get("fsz", 0), os.fsdecode(sdir), int(c["reverse"]),
+                                                           hx(c["host"]), " ".join(hx(u) for u in users))])
         stoks = []
         for u, (_, t) in zip(users, c["srcs"]):
             stoks += tokens(t, name=u)
-        mlines.append("rt %d %d %o %d %d %s %s %d %s %d %s %s" % (
-            c["p"], c["y"], c["um"], cnt, repaired, hx(CWD), hx(c["dest"]), int(c["reverse"]), hx(c["host"]), len(ents),
+        mlines.append("rt %d %d %o %d %d %d %d %s %s %d %s %d %d %d %s %s" % (
+            c["p"], c["y"], c["um"], cnt, var["rule"], var["dch"], c.get("fsz", 0), hx(CWD), hx(c["dest"]),
+            int(c["reverse"]), hx(c["host"]), var["ssec"], var["sfix"], len(ents),
             " ".join(e.token() for e in ents), " ".join(stoks)))
     t0 = int(time.time())
-    ctx.log("%d source trees and jails built" % len(cases))
+    if not nested:
+        ctx.log("%d source trees and jails built" % len(cases))
     impl = run_batch([exe], ops, timeout=1800, env=dict(os.environ, ASAN_OPTIONS="detect_leaks=0"))
-    ctx.log("real client/server round trips done")
+    if not nested:
+        ctx.log("real client/server round trips done")
     mans = ctx.model("pcp", "".join(l + "\n" for l in mlines), timeout=1800)
-    ctx.log("model round trips done")
+    if not nested:
+        ctx.log("model round trips done")
     # specification on the real destination
     snaps, slines = [], []
     for c, j in zip(cases, jails):
@@ -281,9 +295,11 @@ def run_cases(ctx, exe, cases, cnt, repaired, cov, dist, distinct):
                 stoks += tokens(t, name=dest_name(c, userdir, t))
         ft = snapshot_tokens(snap, gens)
         slines.append("spec11 %d %s %d %s %s" % (c["p"], hx(dcanon), len(ft), " ".join(ft), " ".join(stoks)))
-    ctx.log("snapshots taken")
+    if not nested:
+        ctx.log("snapshots taken")
     sans = ctx.model("pcp", "".join(l + "\n" for l in slines), timeout=1800)
-    ctx.log("specification evaluated")
+    if not nested:
+        ctx.log("specification evaluated")
     for i, c in enumerate(cases):
         cov["evaluations"] += 1
         ans, crash = impl[i]
@@ -333,12 +349,16 @@ def run_cases(ctx, exe, cases, cnt, repaired, cov, dist, distinct):
                 comps = path.split(b"/")
                 comps[0] = b"new name" if c["dest"] == b"dest/new name" else dest_name(c, b"", t)
                 expected[(b"o/w/dest" if c["dest"] == b"dest/new name" else dc) + b"/" + b"/".join(comps)] = n
-        if c["subsec"]:
-            # the specification compares whole seconds; microseconds are compared here
-            for path, n in expected.items():
-                r = snaps[i].get(path)
-                if n.nsec and r and (r["sec"], r["nsec"] // 1000) != (n.mtime, n.nsec // 1000):
-                    bads.append((path, "mtime-subsecond"))
+        # the specification compares modification times to the microsecond; name the sub-second class
+        bads = [(pa, "mtime-subsecond" if k == "mtime" and pa in expected and expected[pa].nsec and snaps[i].get(pa) and
+                 (snaps[i][pa]["sec"], snaps[i][pa]["nsec"]) == (expected[pa].mtime, 0) else k) for pa, k in bads]
+        if c.get("fsz"):
+            dist["write_fault_cases"] = dist.get("write_fault_cases", 0) + 1
+            toobig = set(pa for pa, n in expected.items() if n.kind == "f" and n.gen[1] > c["fsz"])
+            bads = [(pa, k) for pa, k in bads if pa not in toobig]
+            if toobig and not any(r.startswith("E:") for r in replies):
+                ctx.offender("isolation:unreported", "a file that could not be written (larger than the receiver's "
+                             "file size limit) was not reported", cj)
         if bads:
             dist["spec_failures"] += 1
             cj["discrepancies"] = [(p.decode("latin-1"), k) for p, k in bads[:12]]
@@ -347,13 +367,21 @@ def run_cases(ctx, exe, cases, cnt, repaired, cov, dist, distinct):
                 groups.setdefault(signature(c, b, snaps[i], expected), []).append(b)
             for sig, bl in groups.items():
                 dist["signatures"][sig] = dist["signatures"].get(sig, 0) + 1
+                cjs = cj
+                if not nested and sig not in getattr(ctx, "shrunk_sigs", set()) and len(getattr(ctx, "shrunk_sigs", set())) < 2 \
+                        and not any(fd["property"] == ctx.prop and fd.get("status") == "open" and
+                                    re.fullmatch(fd["signature"], sig) for fd in ctx.findings.get("findings", [])):
+                    ctx.shrunk_sigs = getattr(ctx, "shrunk_sigs", set()) | {sig}
+                    small = shrink_case(ctx, exe, c, sig, cnt, var)
+                    cjs = dict(case_json(small), discrepancies_in_original=cj.get("discrepancies"),
+                               shrunk_from_entries=c.get("nent"))
                 ctx.offender(sig, "destination differs from the source: " +
-                             ", ".join("%s:%s" % (p.decode("latin-1"), k) for p, k in bl[:6]), cj)
+                             ", ".join("%s:%s" % (p.decode("latin-1"), k) for p, k in bl[:6]), cjs)
         # ---- correspondence
         m = pcp.parse_model(mans[i])
         if int(m["nent"]) != c["nent"]:
             ctx.disagreement("pcp expand", "flattened list has %s entries in the model, %d expected" % (m["nent"], c["nent"]), cj)
-        if all(r == "A" for r in replies):
+        if all(r == "A" for r in replies) or (c.get("fsz") and not cp):
             dist["all_acks"] += 1
             # the receiver may end before the sender is done (top-level `E`): the real client then stops at the
             # first missing reply, the sender model (defined for all-positive replies) does not
@@ -378,6 +406,93 @@ def run_cases(ctx, exe, cases, cnt, repaired, cov, dist, distinct):
             cov["samples"].append(dict(case=cj, spec=sp[:200]))
     for d in (sbase, jbase):
         shutil.rmtree(d, ignore_errors=True)
+
+
+class Probe:
+    """stands in for the check context while a case is shrunk: records offender signatures, reports nothing"""
+
+    def __init__(self, ctx):
+        self.ctx, self.sigs, self.scratch, self.rng, self.replay = ctx, set(), ctx.scratch, ctx.rng, None
+
+    def offender(self, sig, what, case):
+        self.sigs.add(sig)
+        return "new"
+
+    def disagreement(self, *a, **k):
+        pass
+
+    def log(self, *a):
+        pass
+
+    def model(self, *a, **k):
+        return self.ctx.model(*a, **k)
+
+    def quick(self):
+        return True
+
+
+def clone(node):
+    n = Node(node.name, node.kind, node.mode, node.mtime, node.nsec, node.gen, None)
+    if node.kind == "d":
+        n.kids = [clone(k) for k in node.kids]
+    return n
+
+
+def shrink_case(ctx, exe, c, sig, cnt, var):
+    """greedy removal of sources and sub-trees while the specification oracle keeps failing with `sig` (capped)"""
+    budget = [30]
+
+    def fails(c2):
+        if budget[0] <= 0:
+            return False
+        budget[0] -= 1
+        pr = Probe(ctx)
+        c2 = dict(c2, k=9000 + budget[0])
+        try:
+            run_cases(pr, exe, [c2], cnt, var, {"evaluations": 0, "samples": [0, 0, 0]},
+                      {"all_acks": 0, "with_error_replies": 0, "conflict_cases": 0, "overwrite_cases": 0, "spec_failures": 0,
+                       "model_mismatch": 0, "with_dir_and_big_file": 0, "signatures": {}}, set(), nested=True)
+        except Exception:
+            return False
+        return sig in pr.sigs
+
+    def protected(path):
+        keep = [x for x in ((c.get("conflict") or [None])[0], c.get("overwrite")) if x]
+        return any(k == path or k.startswith(path + b"/") for k in keep)
+
+    cur = dict(c, srcs=[(u, clone(t)) for u, t in c["srcs"]])
+    changed = True
+    while changed and budget[0] > 0:
+        changed = False
+        if len(cur["srcs"]) > 1:
+            for i in range(len(cur["srcs"])):
+                if protected(cur["srcs"][i][1].name):
+                    continue
+                cand = dict(cur, srcs=cur["srcs"][:i] + cur["srcs"][i + 1:])
+                if fails(cand):
+                    cur, changed = cand, True
+                    break
+            if changed:
+                continue
+        for si, (u, t) in enumerate(cur["srcs"]):
+            for path, n in list(walk(t, [])):
+                if n.kind != "d" or not n.kids:
+                    continue
+                for ki in range(len(n.kids)):
+                    if protected(path + b"/" + n.kids[ki].name):
+                        continue
+                    t2 = clone(t)
+                    n2 = dict(walk(t2, []))[path]
+                    del n2.kids[ki]
+                    cand = dict(cur, srcs=cur["srcs"][:si] + [(u, t2)] + cur["srcs"][si + 1:])
+                    if fails(cand):
+                        cur, changed = cand, True
+                        break
+                if changed:
+                    break
+            if changed:
+                break
+    return cur
 
 
 def signature(c, bad, snap, expected):
@@ -407,7 +522,7 @@ def describe(node):
 def case_json(c):
     return dict(sources=[dict(userdir=u.decode("latin-1"), tree=describe(t)) for u, t in c["srcs"]], preserve=c["p"],
                 reverse=c["reverse"], host=c["host"].decode(), umask="%o" % c["um"], dest=c["dest"].decode("latin-1"),
-                destmode="%o" % c["destmode"], conflict=(c["conflict"][0].decode("latin-1"), c["conflict"][1]) if c["conflict"] else None,
+                file_size_limit=c.get("fsz", 0), destmode="%o" % c["destmode"], conflict=(c["conflict"][0].decode("latin-1"), c["conflict"][1]) if c["conflict"] else None,
                 overwrite=c["overwrite"].decode("latin-1") if c.get("overwrite") else None)
 
 
@@ -419,7 +534,7 @@ def from_json(j, k):
     return dict(k=k, srcs=[(s["userdir"].encode("latin-1"), mk(s["tree"])) for s in j["sources"]], p=j["preserve"],
                 reverse=j["reverse"], host=j["host"].encode(), um=int(j["umask"], 8), dest=j["dest"].encode("latin-1"),
                 conflict=(j["conflict"][0].encode("latin-1"), j["conflict"][1]) if j.get("conflict") else None,
-                overwrite=j["overwrite"].encode("latin-1") if j.get("overwrite") else None,
+                overwrite=j["overwrite"].encode("latin-1") if j.get("overwrite") else None, fsz=j.get("file_size_limit", 0),
                 destmode=int(j["destmode"], 8), subsec=any(n.nsec for s in j["sources"] for _, n in walk(mk(s["tree"]), [])))
 
 
@@ -427,13 +542,16 @@ def corpus(k0):
     def f(name, size, mode=0o644, mt=1234567890):
         return Node(name, "f", mode, mt, gen=(size + 7, size))
     base = dict(p=1, reverse=False, host=b"host7", um=0o22, dest=b"dest", conflict=None, overwrite=None, destmode=0o755,
-                subsec=False)
+                subsec=False, fsz=0)
     cs = []
     for size in (0, 1, 8191, 8192, 8193, 3 * 8192 - 1, 3 * 8192, 3 * 8192 + 1):
         cs.append(dict(base, srcs=[(b"", f(b"f%d" % size, size))]))
         cs.append(dict(base, p=0, srcs=[(b"", Node(b"d", "d", 0o755, 1234567000, kids=[f(b"x y", size), f(b"z", 3)]))]))
     cs.append(dict(base, reverse=True, srcs=[(b"in", f(b"t", 10240)), (b"", Node(b"tree", "d", 0o750, 1300000000, kids=[f(b"q", 5)]))]))
     cs.append(dict(base, srcs=[(b"", Node(b"e", "d", 0o700, 1300000001, kids=[]))]))
+    # a file too large for the receiver's file size limit in the middle, intact files around it
+    cs.append(dict(base, fsz=16384, srcs=[(b"", Node(b"d", "d", 0o755, 1234567000, kids=[
+        f(b"a", 100), f(b"big", 70000), f(b"z", 8192)]))]))
     cs.append(dict(base, p=0, overwrite=b"d/x", srcs=[(b"", Node(b"d", "d", 0o755, 1234567000, kids=[f(b"x", 10), f(b"z", 3)]))]))
     # a source the user names exactly like the leave-directory sentinel is sent as `E`
     cs.append(dict(base, srcs=[(b"", f(b"a!b@c#d$", 5)), (b"", f(b"after", 9))]))
@@ -479,7 +597,7 @@ def run_e2e(ctx, cov, dist):
     for n in ("pdcp", "rpdcp"):
         if not os.path.lexists(os.path.join(bindir, n)):
             os.symlink(os.path.join(repo, "src/pdsh/pdsh"), os.path.join(bindir, n))
-    nruns = 6 if ctx.quick() else 60
+    nruns = 7 if ctx.quick() else 60
     future = int(time.time()) + 50000000
     dist["e2e_runs"] = 0
     for k in range(nruns):
@@ -502,7 +620,7 @@ def run_e2e(ctx, cov, dist):
         # the first runs pin the corners of the command-line rules: exactly two list entries (-y), one entry (no -y),
         # -p on and off in both directions, no -r for plain files
         plan = [dict(p=1, shape="emptydir"), dict(p=1, shape="any"), dict(p=0, shape="file"), dict(p=0, shape="any"),
-                dict(p=1, shape="two"), dict(p=1, shape="file")]
+                dict(p=1, shape="two"), dict(p=1, shape="file"), dict(p=0, shape="twofiles-destfile")]
         shape = "any"
         if k < len(plan):
             p, shape = plan[k]["p"], plan[k]["shape"]
@@ -510,6 +628,11 @@ def run_e2e(ctx, cov, dist):
             trees = [Node(b"tree", "d", 0o750, 1300000000, kids=[])]
         elif shape == "file":
             trees = [Node(b"file.txt", "f", 0o640, 1300000001, gen=(77, 10240))]
+            r = 0
+        elif shape == "twofiles-destfile":
+            # two plain files, and on ONE target the destination is an existing regular file: that target must be
+            # reported and its file left alone, the other targets get both files (seeded change C11-3: -y rule)
+            trees = [Node(b"file.txt", "f", 0o640, 1300000001, gen=(77, 300)), Node(b"data_2", "f", 0o600, 1300000002, gen=(78, 20))]
             r = 0
         else:
             if shape == "two":
@@ -523,8 +646,14 @@ def run_e2e(ctx, cov, dist):
             tame(t)
         bw = os.fsencode(w)
         roots = [bw + b"/" + h.encode() + b"/rsrc" for h in HOSTS3] if reverse else [bw + b"/src"]
+        destfile_host = "h2" if shape == "twofiles-destfile" else None
         for h in HOSTS3:
-            os.makedirs(os.path.join(w, h, "dst"))
+            if h == destfile_host:
+                os.makedirs(os.path.join(w, h))
+                with open(os.path.join(w, h, "dst"), "w") as fh:
+                    fh.write("precious data in a plain file called dst\n")
+            else:
+                os.makedirs(os.path.join(w, h, "dst"))
         os.makedirs(os.path.join(w, "out"))
         for root in roots:
             os.makedirs(root, exist_ok=True)
@@ -553,7 +682,16 @@ def run_e2e(ctx, cov, dist):
         cov["evaluations"] += 1
         dist["e2e_runs"] += 1
         cj["rc"], cj["stderr"] = pr.returncode, pr.stderr.decode("latin-1")[-400:]
-        if pr.returncode != 0 or pr.stderr.strip():
+        if destfile_host:
+            kept = os.path.isfile(os.path.join(w, destfile_host, "dst")) and \
+                open(os.path.join(w, destfile_host, "dst"), "rb").read() == b"precious data in a plain file called dst\n"
+            if not kept:
+                ctx.offender("e2e:dest-file-overwritten", "two sources copied to a destination that is a regular file on "
+                             "target %s: the file was overwritten/replaced" % destfile_host, cj)
+            if destfile_host.encode() not in pr.stderr and pr.returncode == 0:
+                ctx.offender("e2e:unreported", "two sources copied to a destination that is a regular file on target "
+                             "%s: no error was reported for that target" % destfile_host, cj)
+        elif pr.returncode != 0 or pr.stderr.strip():
             ctx.offender("e2e:reported-error", "pdcp/rpdcp reports an error on a copy that must succeed (rc=%d): %s" %
                          (pr.returncode, pr.stderr.decode("latin-1")[-300:]), cj)
             continue
@@ -577,6 +715,9 @@ def run_e2e(ctx, cov, dist):
                     gens[d[:64] + b"|%d" % len(d)] = n.gen
         slines = []
         for h in HOSTS3:
+            if h == destfile_host:
+                slines.append("norm - -")
+                continue
             if reverse:
                 snap = pcp.snapshot(os.path.join(w, "out"))
                 stoks = []
@@ -590,10 +731,41 @@ def run_e2e(ctx, cov, dist):
             ft = snapshot_tokens(snap, gens)
             slines.append("spec11 %d - %d %s %s" % (p, len(ft), " ".join(ft), " ".join(stoks)))
         for h, sp in zip(HOSTS3, ctx.model("pcp", "".join(l + "\n" for l in slines))):
-            if sp != "ok":
+            if h != destfile_host and sp != "ok":
                 cj["target"] = h
                 ctx.offender("e2e:fidelity", "target %s: copy differs from the source: %s" % (h, sp[:300]), cj)
         shutil.rmtree(w, ignore_errors=True)
+
+def probe_sender(ctx, exe):
+    """which sender is in /repo?  ssec = the T record carries microseconds (repair of F11-MTIME-SUBSEC);
+    sfix = a source the user names like the sentinel is sent as a file (repair of F11-SENTINEL-NAME)"""
+    out = {}
+    for key, trees in (("ssec", [Node(b"probe", "f", 0o644, 1234567890, nsec=123456000, gen=(5, 3))]),
+                       ("sfix", [Node(b"a!b@c#d$", "f", 0o644, 1234567890, gen=(5, 3))])):
+        sdir = os.path.join(ctx.scratch, "probe_src")
+        j = os.path.join(ctx.scratch, "probe_jail")
+        for d in (sdir, j):
+            shutil.rmtree(d, ignore_errors=True)
+        os.makedirs(sdir)
+        future = int(time.time()) + 50000000
+        for t in trees:
+            materialize(os.fsencode(sdir), t, future)
+            set_meta(os.fsencode(sdir), t, future)
+        pcp.build_jail(j, [Ent(b"", "d", 0o755, OLD), Ent(b"o", "d", 0o755, OLD + 1), Ent(b"o/w", "d", 0o755, OLD + 3),
+                           Ent(b"o/w/dest", "d", 0o755, OLD + 7)])
+        op = "rt %s /o/w %s 1 0 22 0 %s 0 %s %s" % (j, hx(b"dest"), sdir, hx(b"h"), " ".join(hx(t.name) for t in trees))
+        (ans, crash), = run_batch([exe], [[op]], env=dict(os.environ, ASAN_OPTIONS="detect_leaks=0"))
+        c2s = pcp.unhx(pcp.fields(ans[0]).get("c2s", "-")) if ans else b""
+        if key == "ssec":
+            import re
+            m = re.search(rb"T\d+ (\d+) \d+ \d+\n", c2s)
+            out[key] = int(bool(m) and int(m.group(1)) != 0)
+        else:
+            out[key] = int(not c2s.startswith(b"E\n"))
+        for d in (sdir, j):
+            shutil.rmtree(d, ignore_errors=True)
+    return out
+
 
 def run(ctx):
     rng = ctx.rng
@@ -616,19 +788,23 @@ def run(ctx):
     if ok:
         blk = int(subprocess.run([exe, "--blksize", ctx.scratch], stdout=subprocess.PIPE).stdout.decode().strip() or 0)
         cnt = ((blk + pcp.BUFSIZ - 1) // pcp.BUFSIZ) * pcp.BUFSIZ or pcp.BUFSIZ
-        repaired = probe_variant(ctx, exe)
-        dist["receiver_variant"] = "repaired (names validated)" if repaired else "unchanged (no name validation)"
+        var = probe_variant(ctx, exe)
+        var.update(probe_sender(ctx, exe))
+        dist["receiver_variant"] = variant_text(var)
+        dist["sender_variant"] = "T record carries microseconds: %s; user-named sentinel sent as a file: %s" % (
+            "yes" if var["ssec"] else "no", "yes" if var["sfix"] else "no")
+        ctx.log("variants:", dist["receiver_variant"], "|", dist["sender_variant"])
         n = 250 if ctx.quick() else 6000
         cases = []
         if ctx.replay:
             import json
             rc = json.load(open(ctx.replay)).get("case", {})
-            if "sources" in rc:
+            if "sources" in rc and not rc.get("e2e"):      # the pinned end-to-end runs are repeated by every run
                 cases.append(from_json(rc, 0))
         cases += corpus(len(cases))
         cases += [gen_case(rng, len(cases) + i, ctx.quick()) for i in range(n)]
         for i in range(0, len(cases), 500):
-            run_cases(ctx, exe, cases[i:i + 500], cnt, repaired, cov, dist, distinct)
+            run_cases(ctx, exe, cases[i:i + 500], cnt, var, cov, dist, distinct)
         if os.environ.get("VERIF_C11_E2E", "1") != "0":
             run_e2e(ctx, cov, dist)
     cov["distinct_nontrivial"] = len(distinct)
@@ -638,7 +814,8 @@ def run(ctx):
         LEVEL, cov,
         assumptions=["sources do not change while they are copied; source paths shorter than MAXPATHLEN, records shorter "
                      "than BUFSIZ (names <= NAME_MAX)", "source modification times are non-negative",
-                     "client and server run as root: no permission failures; no I/O errors",
+                     "client and server run as root: no permission failures; I/O errors only as injected write faults "
+                     "(receiver under RLIMIT_FSIZE)",
                      "each target is served by the same client code on its own connection (threads/transport: C03, C09)",
                      "file-system semantics as in Pcp/FS.lean (see C12)"],
         trusted_base=["Lean 4.33 kernel", "axioms: propext, Classical.choice, Quot.sound at most (audited per theorem)",
